@@ -898,7 +898,9 @@ class Driver:
             self.driver_actor.drive_at(worker, worker_start_timestamp)
 
     def may_complete_current_task(self, task_allocations):
-        any_joinpoints_completing_parent = [a for a in task_allocations if a.task.any_task_completes_parent]
+        # only clients that have actually executed one of the tasks that may complete the parent count: a worker whose clients were
+        # idle in this step reaches the join point immediately and must not complete the parent on behalf of the others
+        any_joinpoints_completing_parent = [a for a in task_allocations if a.client_id in a.task.any_task_completes_parent]
         joinpoints_completing_parent = [a for a in task_allocations if a.task.preceding_task_completes_parent]
 
         # If 'completed-by' is set to 'any', then we *do* want to check for completion by
